@@ -370,7 +370,7 @@ def gen_session(seed, idx, extended=False):
     if rnd.random() < 0.12:
         target['via'] = 'main'
         target['share'] = False
-    n = rnd.choice((1, 1, 2, 2, 3, 3, 4, 5, 6))
+    n = rnd.choice((1, 1, 2, 2, 3, 3, 4, 5, 6)) if rnd.random() < 0.95 else rnd.randint(7, 12)     # a few long histories
     ops = []
     tags = set()
     for j in range(n):
